@@ -684,6 +684,7 @@ class Exec:
         return elem
 
     def truth_of(self, v):
+        if isinstance(v, KwDict): return z3.BoolVal(bool(v.items))
         """truth value of v; for collection values the facts tying emptiness to the cardinality are made available first
         (values read out of containers or returned by outside code carry none)"""
         if isinstance(v, V) and isinstance(v.ty, (TSet, TMap, TSeq, TOMap, TOpt)) and not self.spec:
@@ -751,6 +752,8 @@ class Exec:
         if isinstance(n.op, ast.Invert) and v.ty is TFlags: return V(TFlags, ~v.t)
         raise Unsupported('unary %s on %r' % (type(n.op).__name__, v.ty))
 
+    def e_DictComp(self, n): return self.kwdict_of(n)
+
     def e_IfExp(self, n):
         c = z3.simplify(self.truth_of(self.val(self.eval(n.test))))
         if z3.is_true(c): return self.eval(n.body)
@@ -794,6 +797,9 @@ class Exec:
         if isinstance(op, (ast.Is, ast.IsNot)):
             r = self.is_same(a, b)
             return r if isinstance(op, ast.Is) else z3.Not(r)
+        if isinstance(op, (ast.In, ast.NotIn)) and isinstance(b, KwDict):
+            r = z3.BoolVal(self.const_str(a) in b.items)
+            return r if isinstance(op, ast.In) else z3.Not(r)
         if isinstance(op, (ast.In, ast.NotIn)):
             r = self.contains(self.val(b) if not isinstance(b, IterV) else b, self.val(a))
             return r if isinstance(op, ast.In) else z3.Not(r)
@@ -1002,6 +1008,20 @@ class Exec:
         return self.getattr_obj(obj, n.attr, n)
 
     def getattr_obj(self, obj, attr, node=None):
+        if isinstance(obj, KwDict):
+            if attr == 'pop':
+                def _pop(ex, recv, args, kwargs, node_):
+                    k = ex.const_str(args[0])
+                    if k in recv.items: return recv.items.pop(k)
+                    if len(args) > 1: return args[1]
+                    ex.raise_exc('KeyError')
+                return PyMethod(obj, _pop)
+            if attr == 'get':
+                def _get(ex, recv, args, kwargs, node_):
+                    k = ex.const_str(args[0])
+                    return recv.items[k] if k in recv.items else (args[1] if len(args) > 1 else NONE)
+                return PyMethod(obj, _get)
+            raise Unsupported('keyword bag attribute %s' % attr)
         if isinstance(obj, ModuleRef):
             if obj.info is None:
                 # external module (stdlib / third party)
@@ -1016,6 +1036,8 @@ class Exec:
             for fn_, (frel, fcls, fmem) in self.w.flag_src.items():
                 if fcls == obj.name and attr in fmem: return V(TFlags, z3.BitVecVal(fmem[attr], 64))
             ty = self.type_for_class(obj.rel, obj.name)
+            if attr == '_fields' and isinstance(ty, TRec):
+                return V(TTuple([TStr] * len(ty.fields)), [vstr(f_) for f_, _ in ty.fields])
             if isinstance(ty, TEnum) and attr in ty.members:
                 return V(ty, ty.const(attr))
             m = self.find_method(obj.rel, obj.node, attr)
@@ -1273,7 +1295,17 @@ class Exec:
             lc = c.loops.get('comp#%d' % k)
             if lc is not None:
                 return self.comprehension_loop(n, g, lc, '%s/comp%d' % (self.vf.cur.oname, k))
-        it = self.iter_of(self.eval(g.iter))
+        src_ = self.eval(g.iter)
+        if isinstance(src_, V) and isinstance(src_.ty, TTuple) and src_.t:
+            # a fixed-arity tuple: evaluated element by element (exact; lets elements be used where a constant is needed)
+            saved_ = dict(self.st.env); outs = []
+            for x_ in src_.t:
+                self.assign(g.target, x_); outs.append(self.val(self.eval(n.elt)))
+            for nme in [n_.id for n_ in ast.walk(g.target) if isinstance(n_, ast.Name)]:
+                if nme in saved_: self.st.env[nme] = saved_[nme]
+                else: self.st.env.pop(nme, None)
+            return V(TTuple([o.ty for o in outs]), outs)
+        it = self.iter_of(src_)
         saved_env = self.st.env
         ex = self
         def get(i):
@@ -1962,8 +1994,45 @@ class Exec:
     def s_AnnAssign(self, st):
         if st.value is not None: self.assign(st.target, self.eval(st.value), ann=st.annotation)
     def s_Assign(self, st):
+        bags = (self.frame.get('contract').hints.get('kwdict_vars', ()) if self.frame.get('contract') is not None else ())
+        if bags and len(st.targets) == 1 and isinstance(st.targets[0], ast.Name) and st.targets[0].id in bags and isinstance(st.value, (ast.Dict, ast.DictComp)):
+            # a local declared (in the sidecar) to be a *keyword bag*: a dict whose keys are constant strings, used to collect keyword arguments;
+            # it is kept as a python-level object (key membership is definite on each path), its values may be of any type
+            self.st.env[st.targets[0].id] = self.kwdict_of(st.value); return
         v = self.eval(st.value)
         for t in st.targets: self.assign(t, v)
+
+    def const_str(self, v):
+        v = self.val(v)
+        if v.ty is TStr:
+            t = z3.simplify(v.t)
+            if z3.is_string_value(t): return t.as_string()
+        raise Unsupported('keyword bag: key is not a constant string')
+
+    def kwdict_of(self, node):
+        if isinstance(node, ast.Dict):
+            if any(k is None for k in node.keys): raise Unsupported('dict unpacking in a keyword bag')
+            return KwDict({self.const_str(self.eval(k)): self.eval(v) for k, v in zip(node.keys, node.values)})
+        # {kexpr: vexpr for target in <bag>.items() | <constant tuple>}  -- unrolled (the source is finite and known on this path)
+        if len(node.generators) != 1 or node.generators[0].ifs or node.generators[0].is_async: raise Unsupported('dict comprehension shape')
+        g = node.generators[0]
+        src = None
+        if isinstance(g.iter, ast.Call) and isinstance(g.iter.func, ast.Attribute) and g.iter.func.attr == 'items' and not g.iter.args:
+            b = self.eval(g.iter.func.value)
+            if isinstance(b, KwDict): src = [V(TTuple([TStr, self.val(x).ty]), [vstr(k), self.val(x)]) for k, x in list(b.items.items())]
+        if src is None:
+            it = self.val(self.eval(g.iter))
+            if isinstance(it.ty, TTuple): src = list(it.t)
+        if src is None: raise Unsupported('dict comprehension over something that is not a keyword bag / constant tuple')
+        out = {}
+        saved = dict(self.st.env)
+        for x in src:
+            self.assign(g.target, x)
+            k = self.const_str(self.eval(node.key)); out[k] = self.eval(node.value)
+        for nme in [n_.id for n_ in ast.walk(g.target) if isinstance(n_, ast.Name)]:      # comprehension variables do not leak
+            if nme in saved: self.st.env[nme] = saved[nme]
+            else: self.st.env.pop(nme, None)
+        return KwDict(out)
     def s_AugAssign(self, st):
         cur = self.val(self.eval(st.target)); rhs = self.val(self.eval(st.value))
         self.assign(st.target, self.binop(st.op, cur, rhs, st))
@@ -1996,6 +2065,8 @@ class Exec:
                 obj.t.attrs[target.attr] = self.val(v); return
             if not isinstance(obj.ty, TRef): raise Unsupported('attribute store on %r' % obj.ty)
             self.heap_write(obj, target.attr, self.val(v))
+        elif isinstance(target, ast.Subscript) and isinstance(self.eval(target.value), KwDict):
+            self.eval(target.value).items[self.const_str(self.eval(target.slice))] = v
         elif isinstance(target, ast.Subscript):
             recv = self.val(self.eval(target.value)); k = self.val(self.eval(target.slice))
             if isinstance(recv.ty, TRef) and recv.ty.cls in self.w.dict_classes:
@@ -2044,7 +2115,8 @@ class Exec:
         raise Unsupported('unpacking %r' % v.ty)
 
     def s_If(self, st):
-        c = self.truth_of(self.val(self.eval(st.test)))
+        t_ = self.eval(st.test)
+        c = self.truth_of(t_ if isinstance(t_, KwDict) else self.val(t_))
         if self.branch(c): self.exec_block(st.body)
         else: self.exec_block(st.orelse)
 
